@@ -6,7 +6,7 @@ Import ListNotations.
 Open Scope N_scope.
 
 (* ------------------------------------------------------------------ *)
-(* F3 / F2 witnesses *)
+(* F3 witness; former F2 witness *)
 
 Lemma f3_same_preimage : root_preimage f3_a f3_root = root_preimage f3_b f3_root.
 Proof. vm_compute. reflexivity. Qed.
@@ -18,9 +18,9 @@ Lemma root_injective_refuted_w :
   exists s1 s2 r, root_preimage s1 r = root_preimage s2 r /\ reach_content s1 r <> reach_content s2 r.
 Proof. exists f3_a, f3_b, f3_root. split; [apply f3_same_preimage|apply f3_different_content]. Qed.
 
-Lemma acc_agrees_refuted_w :
-  exists s r, acc_root_preimage (from_state s) r <> root_preimage s r.
-Proof. exists f2_s, f2_root. vm_compute. discriminate. Qed.
+(* the witness on which the two implementations disagreed before the F2 fix *)
+Lemma f2_witness_agrees : acc_root_preimage (from_state f2_s) f2_root = root_preimage f2_s f2_root.
+Proof. vm_compute. reflexivity. Qed.
 
 (* ------------------------------------------------------------------ *)
 (* Orders *)
